@@ -1,26 +1,64 @@
 (* C17  The dictParser command line does exactly what the API does (wiring and scope spellings; process
    behaviour is observed end to end by the check, not modelled). *)
+From Coq Require Import String.   (* string literals of the examples; imported first so the list names win *)
 From Coq Require Import NArith ZArith List Bool.
 From DictIO Require Import Chars Str Value Scalar Cli MiscSpec CliProofs.
 Import ListNotations.
+
+(* [scope_word] of a concrete word, for the non-vacuity examples *)
+Ltac scope_word_tac := split; [discriminate | split; [repeat (constructor; [reflexivity|]); constructor | vm_compute; reflexivity]].
 
 (* every flag set reaches parse() with the documented meaning (negated flags included) *)
 Theorem C17_wiring : forall f, cli_kwargs f = spec_kwargs f.
 Proof. exact cli_wiring. Qed.
 Print Assumptions C17_wiring.
 
+(* (no hypotheses) an instance with negated flags, a list scope and an output format *)
+Example C17_wiring_example :
+  cli_kwargs (mkFlags true false true true (Some OFoam) (Some (of_string "[a, 2]")) true false true) =
+  mkKw false true false false (Some (Ok [SStr (of_string "a"); SInt 2])) OFoam.
+Proof. vm_compute. reflexivity. Qed.
+
 (* a scope given as a word, as a bracketed list and as a bracketed list of quoted words selects the same keys *)
 Theorem C17_scope_word : forall k, scope_word k -> validate_scope k = Ok [SStr k].
 Proof. exact scope_word_ok. Qed.
 Print Assumptions C17_scope_word.
 
+Example C17_scope_word_nonvacuous :
+  scope_word (of_string "scope_A1") /\ validate_scope (of_string "scope_A1") = Ok [SStr (of_string "scope_A1")].
+Proof. assert (H : scope_word (of_string "scope_A1")) by scope_word_tac. exact (conj H (C17_scope_word _ H)). Qed.
+(* words the type table does not leave a string are not scope words (they select int / bool keys) *)
+Example C17_scope_word_excludes :
+  parse_value (of_string "12") = Ok (SInt 12) /\ parse_value (of_string "on") = Ok (SBool true).
+Proof. vm_compute. split; reflexivity. Qed.
+
 Theorem C17_scope_list : forall ks, ks <> [] -> Forall scope_word ks -> validate_scope (bracketed ks) = Ok (map SStr ks).
 Proof. exact scope_list_ok. Qed.
 Print Assumptions C17_scope_list.
 
+Example C17_scope_list_nonvacuous :
+  let ks := [of_string "scopeA"; of_string "sub_1"; of_string "x"] in
+  ks <> [] /\ Forall scope_word ks /\ bracketed ks = of_string "[scopeA, sub_1, x]" /\
+  validate_scope (bracketed ks) = Ok (map SStr ks).
+Proof.
+  intros ks. assert (H1 : ks <> []) by discriminate.
+  assert (H2 : Forall scope_word ks) by (repeat (constructor; [scope_word_tac|]); constructor).
+  refine (conj H1 (conj H2 (conj _ (C17_scope_list ks H1 H2)))). vm_compute. reflexivity.
+Qed.
+
 Theorem C17_scope_quoted : forall ks, ks <> [] -> Forall scope_word ks -> validate_scope (quoted_bracketed ks) = Ok (map SStr ks).
 Proof. exact scope_quoted_ok. Qed.
 Print Assumptions C17_scope_quoted.
+
+Example C17_scope_quoted_nonvacuous :
+  let ks := [of_string "scopeA"; of_string "sub_1"; of_string "x"] in
+  ks <> [] /\ Forall scope_word ks /\ quoted_bracketed ks = of_string "['scopeA', 'sub_1', 'x']" /\
+  validate_scope (quoted_bracketed ks) = Ok (map SStr ks).
+Proof.
+  intros ks. assert (H1 : ks <> []) by discriminate.
+  assert (H2 : Forall scope_word ks) by (repeat (constructor; [scope_word_tac|]); constructor).
+  refine (conj H1 (conj H2 (conj _ (C17_scope_quoted ks H1 H2)))). vm_compute. reflexivity.
+Qed.
 
 Example C17_example : validate_scope (bracketed [of_string "scopeA"; of_string "sub"]) = Ok [SStr (of_string "scopeA"); SStr (of_string "sub")]
   /\ validate_scope (of_string "[scopeA, 12]") = Ok [SStr (of_string "scopeA"); SInt 12].
